@@ -1,6 +1,7 @@
 package conv
 
 import (
+	"strconv"
 	"encoding/json"
 	"fmt"
 	"os"
@@ -193,7 +194,7 @@ func min(a, b int) int {
 
 func RunC07(tier string, seed int64, outDir string, replay string) (*core.Result, error) {
 	res := core.NewResult("C07", tier, seed)
-	res.Rule = "three streams: (a) valid but unusual programs (inline fragments without type condition, __typename-only selections under flatten/struct, heavy partly invalid decoration, random layouts) run in-process and compared with the converter model's Ok/Err/Panic verdict in-kernel; (b) configurations written as genqlient.yaml (empty / null casing entries, odd bindings, every option) through ReadAndValidateConfig + Generate; (c) byte-level mutations (bit flips, truncations, span deletion/duplication, token and cross-file splices, random bytes) of schema, operation (.graphql and .go) and yaml files; every run under recover and a watchdog; non-trivial = every run; distinct by input bytes"
+	res.Rule = "three streams: (a) valid but unusual programs (inline fragments without type condition, __typename-only selections under flatten/struct, heavy partly invalid decoration, random layouts) run in-process and compared with the converter model's Ok/Err/Panic verdict in-kernel; (b) configurations written as genqlient.yaml (empty / null casing entries, odd bindings, every option) through ReadAndValidateConfig + Generate; (c) byte-level mutations (bit flips, truncations, span deletion/duplication, token and cross-file splices, random bytes) of schema, operation (.graphql and .go) and yaml files; (d) a program whose emitted Go does not format, with 0..139 (thorough: 0..1099) comment lines so that the quoted source passes every power-of-ten length; (e) a bound object type whose expect_exact_fields is a selection set, a comment, a fragment, an operation, unbalanced, empty; every run under recover and a watchdog; non-trivial = every run; distinct by input bytes"
 	nA, nB, nC := 60, 27, 150
 	if tier == "thorough" {
 		nA, nB, nC = 600, 180, 2500
@@ -298,6 +299,29 @@ func RunC07(tier string, seed int64, outDir string, replay string) (*core.Result
 		m.Files[target] = string(mutated)
 		m.What = "mutated " + target
 		jobs = append(jobs, job{m.ID, "c:" + target, m})
+	}
+	// ---- (d) programs whose emitted Go cannot be formatted (a field named `_1` becomes the Go
+	// field `1`): the error report quotes the numbered source, for every source length
+	nD := 140
+	if tier == "thorough" {
+		nD = 1100
+	}
+	for k := 0; k < nD; k++ {
+		d := &yamlCase{ID: fmt.Sprintf("f%d", k), What: fmt.Sprintf("unformattable output, %d comment lines", k), Files: map[string]string{
+			"genqlient.yaml": "schema: schema.graphql\noperations:\n- ops.graphql\ngenerated: generated.go\npackage: scratch\n",
+			"schema.graphql": "type Query {\n  _1: String\n  ok: String\n}\n",
+			"ops.graphql":    strings.Repeat("# a comment line\n", k) + "query Q {\n  _1\n}\n",
+			"go.mod":         "module example.com/scratch\n\ngo 1.22\n"}}
+		jobs = append(jobs, job{d.ID, "d", d})
+	}
+	// ---- (e) type bindings of an object type with `expect_exact_fields` of every shape
+	for k, eef := range []string{"{ id }", "{ id name }", "# only a comment", "fragment F on User { id }", "query { id }", "{", "", "{ id } { id }", "subscription X { id }"} {
+		e := &yamlCase{ID: fmt.Sprintf("x%d", k), What: "expect_exact_fields: " + eef, Files: map[string]string{
+			"genqlient.yaml": "schema: schema.graphql\noperations:\n- ops.graphql\ngenerated: generated.go\npackage: scratch\nbindings:\n  User:\n    type: string\n    expect_exact_fields: " + strconv.Quote(eef) + "\n",
+			"schema.graphql": "type Query {\n  user: User\n}\ntype User {\n  id: ID\n  name: String\n}\n",
+			"ops.graphql":    "query Q {\n  user {\n    id\n  }\n}\n",
+			"go.mod":         "module example.com/scratch\n\ngo 1.22\n"}}
+		jobs = append(jobs, job{e.ID, "e", e})
 	}
 	outs := make([]*core.Outcome, len(jobs))
 	var wg sync.WaitGroup
